@@ -5,7 +5,7 @@
    rows.  all48 = the 48 signed permutations of three axes (C05_all48_complete). *)
 From Coq Require Import ZArith List Bool Lia.
 From NV Require Import Base.PySlice C06.Model C06.Lemmas
-  C05.Model C05.LemmasS C05.Orient48 C05.OrientBox C05.Consist C05.Greedy C05.Canon C05.Lemmas.
+  C05.Model C05.LemmasS C05.Orient48 C05.OrientBox C05.Consist C05.Greedy C05.Canon C05.Lemmas C05.Compose.
 Import ListNotations.
 Open Scope Z_scope.
 
@@ -69,6 +69,14 @@ Theorem C05_slicer_voxel_world : forall V (im im' : img V) ix,
       /\ 0 <= snth t0 k0 < n0 /\ 0 <= snth t1 k1 < n1 /\ 0 <= snth t2 k2 < n2).
 Proof. exact @slicer_getitem_world. Qed.
 Print Assumptions C05_slicer_voxel_world.
+
+(* slicing only non-spatial axes (img.slicer[..., 0], img.slicer[:, :, :, 1:]): the affine is unchanged *)
+Theorem C05_nonspatial_slicing_keeps_affine : forall A shape ix crest, rows4 A -> (3 <= length shape)%nat ->
+  check_slicing ix shape = Ok5 (CSl sl_none :: CSl sl_none :: CSl sl_none :: crest) ->
+  ix_valid shape (CSl sl_none :: CSl sl_none :: CSl sl_none :: crest) ->
+  slice_affine A shape ix = Ok5 A.
+Proof. exact nonspatial_slicing_keeps_affine. Qed.
+Print Assumptions C05_nonspatial_slicing_keeps_affine.
 
 (* an integer or None among the three spatial entries is refused (IndexError), never answered *)
 Theorem C05_slicer_refuses_scalar : forall V (im : img V) ix c,
@@ -211,6 +219,58 @@ Theorem C05_canonical_idempotent : forall V (rot : mat -> mat) (atol : Z) (im : 
 Proof. exact @canonical_twice. Qed.
 Print Assumptions C05_canonical_idempotent.
 
+(* ---------------------------------------------------------------------------- compositions *)
+
+(* ANY sequence of img.slicer[...] and img.as_reoriented(...) calls (either flavour), in any order:
+   whenever it returns an image im', there is a source-index map under which every voxel of im'
+   (index inside its shape) is a voxel of im (index inside its shape) with the same value and the
+   same world position (world A j = A . (j0, j1, j2, 1)); affine shape and rank >= 3 are kept.
+   Side conditions (ops_hyp): orientations among the 48; canonical indices valid (measured). *)
+Theorem C05_compose_voxel_world : forall V nifti ops (im im' : img V),
+  good im -> ops_hyp nifti im ops -> run_ops nifti im ops = Ok5 im' -> tracks im im' /\ good im'.
+Proof. exact @compose_voxel_world. Qed.
+Print Assumptions C05_compose_voxel_world.
+
+(* axis codes with ANY table of three label pairs whose six codes are pairwise distinct
+   (the default LR/PA/IS is one instance): ornt2axcodes / axcodes2ornt round trip for all 48 *)
+Theorem C05_axcodes_any_labels : forall a0 b0 a1 b1 a2 b2,
+  nodupb [a0; b0; a1; b1; a2; b2] = true ->
+  forall o, In o all48 ->
+  exists c0 c1 c2,
+    ornt2axcodes [(a0, b0); (a1, b1); (a2, b2)] (map Some o) = Ok5 [Some c0; Some c1; Some c2]
+    /\ axcodes2ornt [(a0, b0); (a1, b1); (a2, b2)] [Some c0; Some c1; Some c2] = Ok5 (map Some o)
+    /\ c0 <> c1 /\ c0 <> c2 /\ c1 <> c2.
+Proof. exact all48_codes_labels. Qed.
+Print Assumptions C05_axcodes_any_labels.
+
+(* ---------------------------------------------------------------------------- funcs.py *)
+
+(* four_to_three: volume i holds, at (j0, j1, j2), the value of voxel (j0, j1, j2, i) under the
+   same affine and header; squeeze_image keeps affine, labels, spatial shape and (reshape) values;
+   enforce_diag=True answers only with a diagonal affine *)
+Theorem C05_four_to_three : forall V (im : img V) l, four_to_three im = Ok5 l ->
+  length (a_shape (i_data im)) = 4%nat /\
+  forall i, 0 <= i < znth (a_shape (i_data im)) 3 0 ->
+    let v := nth (Z.to_nat i) l im in
+    i_aff v = i_aff im /\ i_dim v = i_dim im /\ a_shape (i_data v) = firstn 3 (a_shape (i_data im))
+    /\ forall j, a_get (i_data v) j = a_get (i_data im) (j ++ [i]).
+Proof. exact @four_to_three_spec. Qed.
+Print Assumptions C05_four_to_three.
+
+Theorem C05_squeeze_image : forall V (im : img V), (3 <= length (a_shape (i_data im)))%nat ->
+  let im' := squeeze_image im in
+  i_aff im' = i_aff im /\ i_dim im' = i_dim im
+  /\ firstn 3 (a_shape (i_data im')) = firstn 3 (a_shape (i_data im))
+  /\ exists k, forall j, a_get (i_data im') j = a_get (i_data im) (j ++ repeat 0%Z k).
+Proof. exact @squeeze_image_spec. Qed.
+Print Assumptions C05_squeeze_image.
+
+Theorem C05_enforce_diag : forall V rot atol (im : img V) r,
+  as_closest_canonical_diag rot atol im = Ok5 r ->
+  as_closest_canonical rot atol im = Ok5 r /\ aff_is_diag (i_aff (snd r)) = true.
+Proof. exact @enforce_diag_spec. Qed.
+Print Assumptions C05_enforce_diag.
+
 (* ---------------------------------------------------------------------------- non-vacuity *)
 
 (* slicer: a 4-D image, reversed / strided / out-of-range spatial slices, Ellipsis and an int on
@@ -220,8 +280,8 @@ Example C05_nonvacuous :
   let ix := [ISl (mkSl None None (Some (-1))); ISl (mkSl (Some (-7)) None (Some 2)); IEll; IInt 1] in
   rows4 A
   /\ (exists c, check_slicing ix [2; 3; 4; 2] = Ok5 c /\ ix_validb [2; 3; 4; 2] c = true)
-  /\ run_slicer [2; 3; 4; 2] ix A
-     = Ok5 ([2; 2; 4], [[-2; -2; 1; 9]; [-1; 6; 0; -3]; [0; 2; -2; 5]; [0; 0; 0; 1]],
+  /\ run_slicer [2; 3; 4; 2] ix A [Some 1; None; Some 2]
+     = Ok5 ([2; 2; 4], [[-2; -2; 1; 9]; [-1; 6; 0; -3]; [0; 2; -2; 5]; [0; 0; 0; 1]], [Some 1; None; Some 2],
             [25; 27; 29; 31; 41; 43; 45; 47; 1; 3; 5; 7; 17; 19; 21; 23])
   (* reorientation: a non-identity member of the 48 on a 4-D shape *)
   /\ In [(1, -1); (2, 1); (0, -1)] all48
@@ -229,6 +289,13 @@ Example C05_nonvacuous :
      = Ok5 (false, [4; 2; 3], [[-1; -2; -1; 12]; [0; -1; 3; -3]; [2; 0; 1; -1]; [0; 0; 0; 1]],
             [Some 1; Some 0; None],
             [15; 19; 23; 3; 7; 11; 14; 18; 22; 2; 6; 10; 13; 17; 21; 1; 5; 9; 12; 16; 20; 0; 4; 8])
+  (* composition: slice, reorient, slice on a NIfTI image *)
+  /\ run_sequence true [2; 3; 4] A [Some 0; Some 2; None]
+       [OSlice [ISl (mkSl None None (Some (-1))); ISl (mkSl (Some 1) None None)];
+        OReorient [(1, -1); (2, 1); (0, -1)];
+        OSlice [IEll; ISl (mkSl None None (Some 2))]]
+     = Ok5 ([4; 2; 1], [[-1; 2; -2; 9]; [0; 1; 6; -1]; [2; 0; 2; 0]; [0; 0; 0; 1]], [Some 1; Some 0; None],
+            [7; 19; 6; 18; 5; 17; 4; 16])
   (* canonical: the oracle contract is satisfiable and the dominance hypothesis holds on an
      oblique integer affine with a non-identity orientation *)
   /\ rot_equivariant lin3
@@ -240,6 +307,7 @@ Example C05_nonvacuous :
 Proof.
   cbv zeta. split; [repeat constructor|]. split; [eexists; split; vm_compute; reflexivity|].
   split; [vm_compute; reflexivity|]. split; [vm_compute; tauto|]. split; [vm_compute; reflexivity|].
+  split; [vm_compute; reflexivity|].
   split; [exact lin3_equivariant|].
   split; [split; [reflexivity|repeat constructor]|]. split; [split; [reflexivity|repeat constructor]|].
   split; [vm_compute; tauto|]. split; vm_compute; reflexivity.
